@@ -237,6 +237,9 @@ class Facts:
                 return False
             if self.atoms.get(("lt", b, a)) is True:
                 return False
+            # nothing (unsigned) is below a quantity known to be 0
+            if not is_int(b) and not _maybe_signed(a) and not _maybe_signed(b) and self.known_zero(b):
+                return False
             e = self.atoms.get(_eq_atom(a, b))
             if e is True:
                 return False
